@@ -13,7 +13,8 @@ RULE = ("DAG families with maximal sharing (diamond chains up to 200 levels, lad
         "TL inputs with adversarial vector counts, bytes-field length prefixes exceeding the data (with complete nested "
         "objects as payload), truncations and byte flips of valid messages; measured: number of Cell.__hash__ calls per order(), number of "
         "deserialize_cell / TlSchemas.deserialize calls per input byte; non-trivial = DAG with sharing or an "
-        "adversarial count field; distinct by case")
+        "adversarial count field; dictionaries whose forks share their children (valid, all 2^n keys) and dictionaries with a "
+        "label longer than the key; distinct by case")
 TRUSTED = [
     "Coq 8.16.1 kernel incl. vm_compute; no native_compute",
     "Model/Cost.v: the traversal of Cell.order (Model/Boc.v) instrumented with a visit counter",
@@ -100,6 +101,27 @@ def run(ctx):
         if blob is None or calls2 > 40 * (visits + n_cells) + 100:
             blob = blob or b""
             ctx.fail("to_boc-work-superlinear", f"{n_cells} cells: {calls2} hash operations in to_boc()", {"dag": d})
+        # explicit re-hashing through the public entry point
+        from pytoniq_core.boc.cell import Cell as _C
+        reps = [0]
+        orig_rep = _C.get_representation
+
+        def counted_rep(self, *a, **k):
+            reps[0] += 1
+            if reps[0] > 100 * (n_cells + 10):
+                raise BudgetExceeded()
+            return orig_rep(self, *a, **k)
+        _C.get_representation = counted_rep
+        try:
+            try:
+                root.calculate_representation_hash()
+            except BudgetExceeded:
+                ctx.fail("rehash-work-superlinear", f"{n_cells} cells: calculate_representation_hash() evaluated more than "
+                         f"{100 * (n_cells + 10)} representations", {"dag": d, "rehash": 1})
+            except Exception:
+                pass
+        finally:
+            _C.get_representation = orig_rep
         if dt + dt2 > 2.0:
             ctx.fail("serialisation-slow", f"{n_cells} cells / {len(blob)} bytes took {dt + dt2:.1f}s", {"dag": d})
     ctx.corr.setdefault("order", {"cases": 0, "disagree": 0})
@@ -134,6 +156,18 @@ def run(ctx):
                          {"boc": d.hex()})
     ctx.extra["adversarial_headers"] = n_adv
 
+    # dictionary parser on DAG-shaped and malformed dictionaries: calls of the edge parser per distinct cell
+    n_dict = 0
+    for kind, n in [("shared-valid", 6), ("shared-valid", 12), ("shared-valid", 20), ("shared-valid", 60),
+                    ("label-longer-than-key", 12), ("label-longer-than-key", 24), ("label-longer-than-key", 60),
+                    ("aug-label-longer-than-key", 24)]:
+        n_dict += 1
+        ctx.note_case(["dict-adversarial", kind, n])
+        r = core.call_impl(lambda _: dict_case(kind, n), None, timeout_s=30)
+        if r != "ok":
+            ctx.fail("dict-parser-work:" + kind, r, {"dict": kind, "n": n})
+    ctx.extra["adversarial_dictionaries"] = n_dict
+
     # TL parser: adversarial counts / length prefixes / truncations
     n_tl = 0
     for data in tl_adversarial_inputs(rng, ctx.n(150, 1500)):
@@ -143,6 +177,64 @@ def run(ctx):
         if r != "ok":
             ctx.fail("tl-parser-work-not-bounded-by-input", r, {"tl": data.hex()})
     ctx.extra["adversarial_tl_inputs"] = n_tl
+
+
+def dict_case(kind, n):
+    """a chain of n+1 distinct cells in which both references of every fork are the SAME child.
+    shared-valid: a spec-valid Hashmap n holding all 2^n keys (every label empty);
+    label-longer-than-key: the same chain read as a Hashmap 4 whose root label claims 6 bits: invalid, must be refused
+    without walking the chain once per path"""
+    from pytoniq_core.boc.builder import Builder
+    from pytoniq_core.boc.hashmap import parse as P
+    cur = Builder().store_bits("00").store_uint(7, 8).end_cell()
+    if kind != "shared-valid":
+        # the chain ends in a pruned branch: the parser skips it silently, so nothing stops the walk early
+        cur = cells.build_py([cells.pruned_node(1, [b"\x11" * 32], [0])])[-1]
+    for _ in range(n):
+        cur = Builder().store_bits("00").store_ref(cur).store_ref(cur).end_cell()
+    key_len = n
+    if kind != "shared-valid":
+        # root: hml_long$10 n:(#<= 4)=6 (3 bits) s:6 bits -> 2 bits more than the key has
+        cur = Builder().store_bits("10" + "110" + "000000").store_ref(cur).store_ref(cur).end_cell()
+        key_len = 4
+    cells_n = n + 2
+    budget = 200 * cells_n
+    calls = [0]
+    names = ["parse", "parse_aug"]
+    orig = {nm: getattr(P, nm) for nm in names}
+
+    def wrap(nm):
+        def counted(*a, **k):
+            calls[0] += 1
+            if calls[0] > budget:
+                raise BudgetExceeded()
+            return orig[nm](*a, **k)
+        return counted
+    for nm in names:
+        setattr(P, nm, wrap(nm))
+    t0 = time.time()
+    cut = False
+    out = None
+    try:
+        try:
+            sl = cur.begin_parse()
+            if kind.startswith("aug"):
+                out = P.parse_hashmap_aug(sl, key_len, lambda x: x, lambda y: None)
+            else:
+                out = P.parse_hashmap(sl, key_len)
+        except BudgetExceeded:
+            cut = True
+        except Exception:
+            out = "raised"
+    finally:
+        for nm in names:
+            setattr(P, nm, orig[nm])
+    dt = time.time() - t0
+    if cut:
+        return f"{kind}: a dictionary of {cells_n} distinct cells made the parser visit more than {budget} edges (cut off after {dt:.2f}s)"
+    if kind != "shared-valid" and out != "raised":
+        return f"{kind}: a label longer than the remaining key was not refused (result: {str(out)[:40]})"
+    return "ok"
 
 
 _SCHEMAS = []
@@ -169,6 +261,12 @@ def tl_adversarial_inputs(rng, n):
     if tl is not None:
         for cnt in (100000, 2 ** 31 - 1, 2 ** 32 - 1):
             out.append(tl.little_id() + cnt.to_bytes(4, "little"))
+    # every constructor whose FIRST field is a vector (of whatever element type): id + an absurd count, nothing else
+    for sc in sch.list:
+        args = list(getattr(sc, "args", {}).items())
+        if args and args[0][1].startswith("(") and "vector" in args[0][1]:
+            for cnt in (2 ** 32 - 1, 2 ** 31 - 1, 1000000):
+                out.append(sc.little_id() + cnt.to_bytes(4, "little"))
     nested = [x for x in (ser("dht.ping", random_id=rng.getrandbits(62)), ser("tcp.ping", random_id=rng.getrandbits(62)),
                           ser("adnl.message.nop")) if x]
     carriers = [sch.get_by_name(nm) for nm in ("adnl.message.custom", "adnl.message.answer", "adnl.message.query")]
@@ -237,6 +335,9 @@ def tl_case(data):
 
 def replay(ctx, obj):
     c = obj["case"]
+    if "dict" in c:
+        r = core.call_impl(lambda _: dict_case(c["dict"], c["n"]), None, timeout_s=60)
+        return None if r == "ok" else r
     if "tl" in c:
         r = core.call_impl(lambda _: tl_case(bytes.fromhex(c["tl"])), None, timeout_s=60)
         return None if r == "ok" else r
@@ -247,5 +348,23 @@ def replay(ctx, obj):
     d = [(t, b, list(r)) for t, b, r in c["dag"]]
     objs = cells.build_py(d)
     n = len({o.hash for o in objs})
+    if c.get("rehash"):
+        from pytoniq_core.boc.cell import Cell as _C
+        reps = [0]
+        orig_rep = _C.get_representation
+
+        def counted_rep(self, *a, **k):
+            reps[0] += 1
+            if reps[0] > 100 * (n + 10):
+                raise BudgetExceeded()
+            return orig_rep(self, *a, **k)
+        _C.get_representation = counted_rep
+        try:
+            objs[-1].calculate_representation_hash()
+            return None
+        except BudgetExceeded:
+            return f"{n} cells: calculate_representation_hash() evaluated more than {100 * (n + 10)} representations"
+        finally:
+            _C.get_representation = orig_rep
     calls, dt, res = count_hash_calls(lambda: objs[-1].to_boc(), budget=100 * (200 * (5 * n) + 100))
     return None if res is not None and calls <= 200 * (5 * n) + 100 and dt < 2.0 else f"{n} cells: {calls} hash operations, {dt:.1f}s"
